@@ -86,6 +86,11 @@ func newC15Tab(mk int, in *script.Interner) *c15Tab {
 
 // addValue tabulates Name and Marshal of v; returns its (type, content) identity.
 func (t *c15Tab) addValue(v any) [2]int {
+	// the table holds the name and encoding of the value itself (passed as T or *T); that the bus
+	// and the processors get the same name at every pointer depth is what is being checked
+	if ct.Depth(v) > 1 {
+		v = ct.Canon(v)
+	}
 	ty, c := ct.Render(v)
 	key := [2]int{ty, t.in.ID(c)}
 	if t.vals[key] {
@@ -179,6 +184,7 @@ type c15Delivery struct {
 	Flight    int32           `json:"flight"`
 
 	Groups    int             `json:"router_handlers"`
+	HPtr      []bool          `json:"hptr"`    // per handler: generic handler instantiated with *T
 	Wrapped   bool            `json:"wrapped"` // the processor's marshaler is the recording wrapper
 	MTrace    [][]interface{} `json:"mtrace"`  // marshaler calls made for this delivery + Handle entries with object numbers
 	objs      map[interface{}]int // router handlers (cqrs handlers / groups) on the same processor
@@ -221,6 +227,7 @@ type c15Scenario struct {
 	Reg       [][]interface{}
 	regMu     sync.Mutex
 	wrapped   bool
+	hptr      []bool // handler i is a generic handler instantiated with *T instead of T
 	facade    bool
 	facadePub *script.Publisher
 	facadeObj *cqrs.Facade
@@ -324,6 +331,50 @@ func (s *c15Scenario) onHandleHook(handler any, name string, v any, msg *message
 		return errC15OnHandle
 	}
 	panic("scripted OnHandle panic")
+}
+
+// the generic constructors instantiated with a POINTER type: NewCommand()/NewEvent() return **T
+func c15CmdHandlerPtr(ty int, name string, f func(context.Context, any) error) cqrs.CommandHandler {
+	switch ty {
+	case ct.TCmdA:
+		return cqrs.NewCommandHandler(name, func(ctx context.Context, v **ct.CmdA) error { return f(ctx, v) })
+	case ct.TCmdB:
+		return cqrs.NewCommandHandler(name, func(ctx context.Context, v **ct.CmdB) error { return f(ctx, v) })
+	case ct.TEvtC:
+		return cqrs.NewCommandHandler(name, func(ctx context.Context, v **ct.EvtC) error { return f(ctx, v) })
+	default:
+		return cqrs.NewCommandHandler(name, func(ctx context.Context, v **ct.Bad) error { return f(ctx, v) })
+	}
+}
+
+func c15EvtHandlerPtr(ty int, name string, f func(context.Context, any) error) cqrs.EventHandler {
+	switch ty {
+	case ct.TCmdA:
+		return cqrs.NewEventHandler(name, func(ctx context.Context, v **ct.CmdA) error { return f(ctx, v) })
+	case ct.TCmdB:
+		return cqrs.NewEventHandler(name, func(ctx context.Context, v **ct.CmdB) error { return f(ctx, v) })
+	case ct.TEvtC:
+		return cqrs.NewEventHandler(name, func(ctx context.Context, v **ct.EvtC) error { return f(ctx, v) })
+	default:
+		return cqrs.NewEventHandler(name, func(ctx context.Context, v **ct.Bad) error { return f(ctx, v) })
+	}
+}
+
+func c15GroupHandlerPtr(ty int, f func(context.Context, any) error) cqrs.GroupEventHandler {
+	switch ty {
+	case ct.TCmdA:
+		return cqrs.NewGroupEventHandler(func(ctx context.Context, v **ct.CmdA) error { return f(ctx, v) })
+	case ct.TCmdB:
+		return cqrs.NewGroupEventHandler(func(ctx context.Context, v **ct.CmdB) error { return f(ctx, v) })
+	case ct.TEvtC:
+		return cqrs.NewGroupEventHandler(func(ctx context.Context, v **ct.EvtC) error { return f(ctx, v) })
+	default:
+		return cqrs.NewGroupEventHandler(func(ctx context.Context, v **ct.Bad) error { return f(ctx, v) })
+	}
+}
+
+func c15PtrInstantiable(mk, ty int) bool {
+	return !c15IsProto(mk) && (ty == ct.TCmdA || ty == ct.TCmdB || ty == ct.TEvtC || ty == ct.TBad)
 }
 
 func c15CmdHandler(ty int, name string, f func(context.Context, any) error) cqrs.CommandHandler {
@@ -467,7 +518,21 @@ func (s *c15Scenario) throughBus(v any) (*message.Message, error) {
 func (s *c15Scenario) randomValue(ty int) any {
 	as := []int{0, 1, 7, -3}
 	bs := []string{"", "x", "héllo", "a b"}
-	return ct.Make(ty, as[s.rng.Intn(len(as))], bs[s.rng.Intn(len(bs))], s.rng.Intn(2) == 0)
+	return ct.MakeDepth(ty, as[s.rng.Intn(len(as))], bs[s.rng.Intn(len(bs))], c15Depth(s.rng, s.mk, ty))
+}
+
+// c15Depth draws the number of pointer levels a value is sent through. Protobuf marshalers and
+// protobuf types only know T / *T (a **T is no proto.Message); a type that names itself through
+// a value-receiver Name method does so only as T and *T (method sets), so under NamedStruct it
+// stays at depth <= 1; everything else goes through 0..3 pointers.
+func c15Depth(rng *rand.Rand, mk, ty int) int {
+	if ty >= ct.TPStr {
+		return 1
+	}
+	if c15IsProto(mk) || (ty == ct.TNamed && (mk == 2 || mk == 5)) {
+		return rng.Intn(2)
+	}
+	return []int{0, 0, 1, 1, 1, 2, 2, 3}[rng.Intn(8)]
 }
 
 func (s *c15Scenario) typePool() []int {
@@ -595,7 +660,11 @@ func (s *c15Scenario) run(sIdx int) ([]*c15Delivery, error) {
 	case 0:
 		hs := make([]cqrs.CommandHandler, n)
 		for i, ty := range s.htypes {
-			hs[i] = c15CmdHandler(ty, fmt.Sprintf("h%d", i), hf(i))
+			if s.hptr[i] {
+				hs[i] = c15CmdHandlerPtr(ty, fmt.Sprintf("h%d", i), hf(i))
+			} else {
+				hs[i] = c15CmdHandler(ty, fmt.Sprintf("h%d", i), hf(i))
+			}
 			s.hids[hs[i]] = i
 		}
 		if s.depr && s.facade {
@@ -670,7 +739,11 @@ func (s *c15Scenario) run(sIdx int) ([]*c15Delivery, error) {
 	case 1:
 		hs := make([]cqrs.EventHandler, n)
 		for i, ty := range s.htypes {
-			hs[i] = c15EvtHandler(ty, fmt.Sprintf("h%d", i), hf(i))
+			if s.hptr[i] {
+				hs[i] = c15EvtHandlerPtr(ty, fmt.Sprintf("h%d", i), hf(i))
+			} else {
+				hs[i] = c15EvtHandler(ty, fmt.Sprintf("h%d", i), hf(i))
+			}
 			s.hids[hs[i]] = i
 		}
 		if s.depr && s.facade {
@@ -746,7 +819,11 @@ func (s *c15Scenario) run(sIdx int) ([]*c15Delivery, error) {
 	default:
 		hs := make([]cqrs.GroupEventHandler, n)
 		for i, ty := range s.htypes {
-			hs[i] = c15GroupHandler(ty, hf(i))
+			if s.hptr[i] {
+				hs[i] = c15GroupHandlerPtr(ty, hf(i))
+			} else {
+				hs[i] = c15GroupHandler(ty, hf(i))
+			}
 			s.hids[hs[i]] = i
 		}
 		// 1..3 groups on ONE processor instance; the handlers are dealt to the groups in order
@@ -844,6 +921,7 @@ func (s *c15Scenario) run(sIdx int) ([]*c15Delivery, error) {
 			for pos, hid := range tg {
 				sc := s.randomScript(pos, failAt)
 				d.Handlers = append(d.Handlers, [2]int{hid, s.htypes[hid]})
+				d.HPtr = append(d.HPtr, s.hptr[hid])
 				d.Scripts = append(d.Scripts, sc)
 				d.script[hid] = sc
 			}
@@ -935,6 +1013,7 @@ type c15BusCall struct {
 	Ctor    string   `json:"ctor"`
 	Val     [2]int   `json:"val"`
 	Ptr     bool     `json:"ptr"`
+	Depth   int      `json:"depth"` // pointer levels the value is passed through
 	Topic   int      `json:"topic"` // what GeneratePublishTopic returns: >0 interned topic, 0 error, -1 panic
 	Hook    *c15Hook `json:"hook"`
 	Modify  *c15Hook `json:"modify"`
@@ -1203,14 +1282,15 @@ func (b *c15BusScenario) run(sIdx, tabIdx, mk int) ([]*c15BusCall, error) {
 	bs := []string{"", "x", "héllo", "a b"}
 	for k := 0; k < ncalls; k++ {
 		ty := pool[b.rng.Intn(len(pool))]
-		ptr := b.rng.Intn(2) == 0
+		depth := c15Depth(b.rng, mk, ty)
 		if c15IsProto(mk) && ty == ct.TCmdA {
-			ptr = true
+			depth = 1
 		}
-		v := ct.Make(ty, as[b.rng.Intn(len(as))], bs[b.rng.Intn(len(bs))], ptr)
+		ptr := depth > 0
+		v := ct.MakeDepth(ty, as[b.rng.Intn(len(as))], bs[b.rng.Intn(len(bs))], depth)
 		key := b.tab.addValue(v)
 		id := fmt.Sprintf("b%d-%d", sIdx, k)
-		c := &c15BusCall{Tab: tabIdx, BusKind: busKind, Ctor: "config", Val: key, Ptr: ptr, Tag: 1 + b.rng.Intn(5), v: v,
+		c := &c15BusCall{Tab: tabIdx, BusKind: busKind, Ctor: "config", Val: key, Ptr: ptr, Depth: depth, Tag: 1 + b.rng.Intn(5), v: v,
 			uuidStr: "uuid-" + id, objs: map[*message.Message]int{}, Trace: [][]interface{}{}, Wrapped: busWrapped, MTrace: [][]interface{}{}}
 		c.topicStr = fmt.Sprintf("topic-%d", b.rng.Intn(3))
 		c.Topic = b.in.ID(c.topicStr)
@@ -1444,9 +1524,51 @@ func c15RunReg(in *script.Interner, rng *rand.Rand, tab *c15Tab, tabIdx, mk int)
 	return c, nil
 }
 
+// ------------------------------------------------------------------ name.go called directly
+
+// c15NameCase: one of the exported name functions applied to a value of a harness type passed
+// through Depth pointer levels.
+type c15NameCase struct {
+	Gen   int    `json:"gen"` // 0 FullyQualifiedStructName, 1 StructName, 2 NamedStruct(FullyQualified), 3 NamedStruct(StructName), 4 NamedStruct(NamedStruct(StructName))
+	Ty    int    `json:"ty"`
+	Depth int    `json:"depth"`
+	Base  []byte `json:"-"`
+	BaseS string `json:"base"`
+	Own   string `json:"own"` // what the type's Name method returns ("" = the type has none)
+	Obs   string `json:"obs"`
+}
+
+func c15NameCases() []c15NameCase {
+	gens := []func(interface{}) string{cqrs.FullyQualifiedStructName, cqrs.StructName, cqrs.NamedStruct(cqrs.FullyQualifiedStructName),
+		cqrs.NamedStruct(cqrs.StructName), cqrs.NamedStruct(cqrs.NamedStruct(cqrs.StructName))}
+	var out []c15NameCase
+	for g, f := range gens {
+		for ty := 1; ty <= ct.NTypes; ty++ {
+			for depth := 0; depth <= 3; depth++ {
+				v := ct.MakeDepth(ty, 1, "x", depth)
+				c := c15NameCase{Gen: g, Ty: ty, Depth: ct.Depth(v), BaseS: ct.BaseName(ty)}
+				if ty == ct.TNamed {
+					c.Own = "named:x"
+				}
+				func() {
+					defer func() {
+						if r := recover(); r != nil {
+							c.Obs = fmt.Sprint("panic: ", r)
+						}
+					}()
+					c.Obs = f(v)
+				}()
+				out = append(out, c)
+			}
+		}
+	}
+	return out
+}
+
 // ------------------------------------------------------------------ command
 
 type c15Out struct {
+	NameCases  []c15NameCase    `json:"namecases"`
 	RegCases   []*c15RegCase    `json:"regcases"`
 	RegScripts []*c15RegScript  `json:"regscripts"`
 	Tabs       []*c15Tab        `json:"tabs"`
@@ -1524,6 +1646,10 @@ func cmdC15(args []string) error {
 				s.htypes = append(s.htypes, pool[rng.Intn(len(pool))])
 			}
 		}
+		s.hptr = make([]bool, len(s.htypes))
+		for j, ty := range s.htypes {
+			s.hptr[j] = c15PtrInstantiable(s.mk, ty) && rng.Intn(10) < 3
+		}
 		s.tab = newC15Tab(s.mk, in)
 		s.tabIdx = len(res.Tabs)
 		res.Tabs = append(res.Tabs, s.tab)
@@ -1587,6 +1713,7 @@ func cmdC15(args []string) error {
 		}
 		res.RegScripts = append(res.RegScripts, sc)
 	}
+	res.NameCases = c15NameCases()
 	res.Strings = len(in.Tab)
 	res.Table = in.Tab
 	return writeJSON(*out, res)
